@@ -230,7 +230,26 @@ def kernel_scaling(rep, timeout, k, pos):
     for c in range(3):
         obs.append(oblig.Ob("semi-infinite vortex K(u, k r) = K(u, r)/k [%d]" % c, lhs=s1[0].result[0, c], rhs=s0[0].result[0, c] / k, assume=pos,
                             meta={"family": "semi-infinite vortex kernel scales with 1/length"}))
+    # the band in which a segment's contribution is dropped (and the scaling law is false) is the documented one:
+    # |r1||r2| + r1.r2 < 1e-10 m^2 - a larger band reaches panels of realistic size
+    from symoas.sym import ge as _ge, sqrt as _sqrt, const as _const
+    from fractions import Fraction as _Fr
+
+    dot_ = lambda a, b: sum((a[0, c] * b[0, c] for c in range(3)), ZERO)
+    den_ref = _sqrt(dot_(r1, r1)) * _sqrt(dot_(r2, r2)) + dot_(r1, r2)
+    for pa in p0:
+        res = [pa.result[0, c] for c in range(3)]
+        if all((x is ZERO) or (isinstance(x, Sym) and x.op == "const" and float(x.args[0]) == 0.0) for x in res):
+            obs.append(oblig.Ob("finite vortex dropped only inside the documented band, path %s" % pa.label(), cond=gt(den_ref, _const(_Fr(1, 10**10))), assume=pa.conds,
+                                meta={"family": "a vortex segment is ignored only where |r1||r2| + r1.r2 <= 1e-10 m^2 (the documented tolerance)", "band": True}))
+
     def kern_rp(ob, env):
+        if ob.meta.get("band"):
+            # a point 1 mm beside the middle of a 1 m segment: far outside the documented band, the segment must contribute
+            r1v, r2v = np.array([[0.5, 1e-3, 0.0]]), np.array([[-0.5, 1e-3, 0.0]])
+            val = np.asarray(em._compute_finite_vortex(r1v, r2v), dtype=float)
+            den = float(np.linalg.norm(r1v) * np.linalg.norm(r2v) + (r1v * r2v).sum())
+            return not np.any(np.abs(val) > 0), "point 1 mm beside a 1 m segment (|r1||r2| + r1.r2 = %.3g m^2): kernel returns %s" % (den, val.ravel())
         rng = np.random.default_rng(3)
         r1v, r2v, uv, kk = rng.standard_normal((1, 3)) + 2.0, rng.standard_normal((1, 3)) - 1.5, np.array([[0.98, 0.0, 0.17]]), 2.0
         a_ = np.asarray(em._compute_finite_vortex(r1v * kk, r2v * kk), dtype=float) * kk
